@@ -163,7 +163,7 @@ pub fn build_targets() -> Result<(), String> {
 
 /// One fixed-size campaign of `target_name`, split over `jobs` processes with distinct seeds.
 pub fn campaign(ctx: &Ctx, target_name: &str, total_runs: u64, jobs: usize) -> FuzzOut {
-	let exe = fuzz_dir().join("target/x86_64-unknown-linux-gnu/release").join(target_name);
+	let exe = verif_root().join("target/x86_64-unknown-linux-gnu/release").join(target_name);
 	let mut out = FuzzOut { execs: 0, cov: 0, crash: None, note: String::new() };
 	if !exe.exists() {
 		out.note = format!("fuzz target {} not built", exe.display());
@@ -264,7 +264,7 @@ pub fn replay_input(doc: &psc_model::serde_json::Value) -> Option<Result<(), Vio
 	let target_name = doc["target"].as_str()?;
 	let (_, property, name) = TARGETS.iter().find(|t| t.0 == target_name)?;
 	let data = std::fs::read(doc["file"].as_str()?).ok()?;
-	let exe = fuzz_dir().join("target/x86_64-unknown-linux-gnu/release").join(target_name);
+	let exe = verif_root().join("target/x86_64-unknown-linux-gnu/release").join(target_name);
 	if exe.exists() {
 		let o = Command::new(&exe).arg(doc["file"].as_str()?).output().ok()?;
 		return Some(if o.status.success() {
